@@ -380,10 +380,15 @@ def main():
         if r["vir_error"]:
             undec_reasons.append("%s: verus reported a VIR error" % r["unit"])
 
-    if undec_reasons:
-        return undecided("; ".join(undec_reasons)[:600])
+    hard = [u for u in undec_reasons if "supporting obligation" not in u]
+    if hard:
+        return undecided("; ".join(hard)[:600])
     if not canary_ok:
         return undecided("canary obligation did not fail: pipeline is vacuous")
+    # an obligation tagged with this property failed: that is a violation even if supporting obligations failed too
+    # (postconditions are checked against the ASSUMED invariants, so their failure does not stem from a broken support)
+    if undec_reasons and not failed:
+        return undecided("; ".join(undec_reasons)[:600])
     if untagged_fail:
         return undecided("supporting lemma failed: " + ", ".join("%s/%s" % (u, rid) for u, rid, _ in untagged_fail)[:400])
     if not obligations:
